@@ -8,6 +8,8 @@ import (
 	"time"
 
 	"github.com/go-kit/log"
+
+	"github.com/grafana/dskit/kv"
 )
 
 // C08 - a lifecycler edits only its own ring entry and follows the state
@@ -25,6 +27,10 @@ func init() {
 const vfOwnID = "i0"
 
 func vfNewLifecycler(store *vfKV, numTokens int, src rand.Source) *Lifecycler {
+	return vfNewLifecyclerKV(store, numTokens, src)
+}
+
+func vfNewLifecyclerKV(store kv.Client, numTokens int, src rand.Source) *Lifecycler {
 	var cfg LifecyclerConfig
 	cfg.RingConfig.KVStore.Mock = store
 	cfg.RingConfig.HeartbeatTimeout = time.Minute
